@@ -10,3 +10,17 @@ Theorem C05_gate_stops_script : forall q l upg p, wants_more q = false -> is_one
   run_actions q true upg (AReply p :: l) = ([], false, upg).
 Proof. exact gate_stops_script. Qed.
 Print Assumptions C05_gate_stops_script.
+
+(* client half: iterating a `more` call yields every continues reply, then the final one, then
+   ends, and the connection is idle again with the following bytes unread *)
+From VL Require Import Client ClientProofs.
+Open Scope nat_scope.
+Theorem C05_iteration_yields_all : forall conts s k yf rest,
+  Forall is_cont_frame conts -> y_continues yf <> Some true ->
+  k < ncalls s -> owns s k -> c_cont (get_call s k) = true ->
+  cs_inbox s = conts ++ FReply yf :: rest ->
+  let '(s', outs) := crun s (repeat (ONext k) (S (S (length conts)))) in
+  outs = map frame_outcome conts ++ [outcome_of_reply yf; RNone] /\
+  cs_idle s' = true /\ cs_inbox s' = rest.
+Proof. exact iteration_yields_all. Qed.
+Print Assumptions C05_iteration_yields_all.
